@@ -619,6 +619,36 @@ fn xen_part(ctx: &Ctx, _thorough: bool) {
             emu.take_log();
         }
     }
+    // explicit protection and flag words for every mapping type: the region reports exactly what
+    // was requested (whatever the library adds for the kernel's sake stays between it and mmap)
+    for &w in &valid {
+        for flags in [libc::MAP_SHARED, libc::MAP_PRIVATE, libc::MAP_SHARED | libc::MAP_NORESERVE, libc::MAP_PRIVATE | libc::MAP_NORESERVE, libc::MAP_NORESERVE, libc::MAP_PRIVATE | libc::MAP_POPULATE, 0] {
+            for prot in [libc::PROT_READ | libc::PROT_WRITE, libc::PROT_READ, libc::PROT_NONE] {
+                ctx.case(true);
+                let mut range = MmapRange::new(4096, Some(emu.file_offset(0)), GuestAddress(0x8000), w, 3);
+                range.set_flags(flags);
+                range.set_prot(prot);
+                let (res, log) = record_maps(|| MmapRegion::<()>::from_range(range));
+                let rp = json!({"mmap_flags": format!("{:#x}", w), "flags": flags, "prot": prot});
+                match res {
+                    Ok(r) => {
+                        if r.flags() != flags || r.prot() != prot || r.size() != 4096 || r.xen_mmap_flags() != w || r.xen_mmap_data() != 3 {
+                            fail(ctx, "C15/xen/from_range/attributes-do-not-echo-the-request", format!("xen flags {:#x}: requested prot {:#x} flags {:#x}, region reports prot {:#x} flags {:#x} size {} xen flags {:#x} data {}", w, prot, flags, r.prot(), r.flags(), r.size(), r.xen_mmap_flags(), r.xen_mmap_data()), rp.clone());
+                        }
+                        drop(r);
+                    }
+                    Err(_) => {
+                        // (a combination the kernel refuses may fail)
+                        if !left_mapped(&log).is_empty() || !emu.live().is_empty() {
+                            fail(ctx, "C15/xen/from_range/left-mapped-after-failure", format!("xen flags {:#x} prot {:#x} flags {:#x}", w, prot, flags), rp.clone());
+                        }
+                    }
+                }
+                emu.state.borrow_mut().live.clear();
+                emu.take_log();
+            }
+        }
+    }
     // MAP_FIXED and file range checks for the UNIX flavour
     let f = tempfile().unwrap();
     f.set_len(8192).unwrap();
@@ -766,7 +796,7 @@ fn file_histories(ctx: &Ctx) {
 
 pub fn run(tier: Tier, replay: Option<String>) -> i32 {
     let ctx = crate::new_ctx("C15", tier, "fault_enumeration", &replay);
-    ctx.set_rule("Unix build: file lengths {0,1,4095,4096,4097,8192,12288} x offsets {0,1,4096,len-1,len,len+1,2^64-4096,2^64-1} x sizes {0,1,4096,rest-1,rest,rest+1,isize::MAX,usize::MAX} x all 32 subsets of {PRIVATE,SHARED,ANONYMOUS,NORESERVE,FIXED} (x 3 protections in the thorough tier) through MmapRegion::build / from_file / GuestRegionMmap::from_range and the builder with the hugetlbfs hint {unset, false, true}, descriptors opened read-only and write-only x 3 protections x shared/private (a request the kernel refuses stays refused; an accepted one made exactly the mapping it reports), anonymous requests, injected mmap failure, build_raw with pointers at page offset {0,1,8,2048,4095} with and without a backing file and for 58 flag words (all subsets of the basic bits plus huge-page sizes, populate, lock, stack, growsdown, nonblock, sync and unknown high bits: the pointer rule does not depend on the flags), guest bases within +-2 of the top of the address space, byte-by-byte coherence of shared file regions in both directions; a sparse file of 14 GiB with offsets around 2^31, 2^32 and 2^33 through three constructors (the kernel sees the whole offset, the region shows the file's bytes at that offset, and a request the kernel itself maps is not refused). Xen build: guest bases within two pages of 2^64 and around 2^63 for every valid mapping type (end beyond the address space refused whatever backs the region); all 256 low mmap-flag bytes plus every single high bit (alone and combined with GRANT) x {no file, device file at offset 0, at offset 4096} x sizes (incl. past the end of the file for plain file mappings) x hugetlbfs hint {unset, false, true} x injected {none, ioctl failure, mmap failure} on the emulated gntdev/privcmd. Both builds: every sequence of three file lengths out of {0,4096,8192,12288} with every size requested after each change through one FileOffset lineage (the predicate refers to the file as it is now), and every length query of a valid construction answered with EIO / length 0 / length 2^40 (one deviation per run): whatever the outcome, nothing may stay mapped. Oracle: the statement's acceptance predicate (must fail: MAP_FIXED - which must not even reach the kernel -, overflowing or past-EOF file range, misaligned raw pointer, end beyond the address space, unknown/contradictory Xen type bits, missing file or non-zero offset for foreign/grant; safe requests the OS refuses may fail too); on success the attributes echo the request and exactly one mapping with the requested arguments was made; on failure the interposed mapping log (and the device) show nothing left mapped. One case = one request; all non-trivial; distinct by construction.");
+    ctx.set_rule("Unix build: file lengths {0,1,4095,4096,4097,8192,12288} x offsets {0,1,4096,len-1,len,len+1,2^64-4096,2^64-1} x sizes {0,1,4096,rest-1,rest,rest+1,isize::MAX,usize::MAX} x all 32 subsets of {PRIVATE,SHARED,ANONYMOUS,NORESERVE,FIXED} (x 3 protections in the thorough tier) through MmapRegion::build / from_file / GuestRegionMmap::from_range and the builder with the hugetlbfs hint {unset, false, true}, descriptors opened read-only and write-only x 3 protections x shared/private (a request the kernel refuses stays refused; an accepted one made exactly the mapping it reports), anonymous requests, injected mmap failure, build_raw with pointers at page offset {0,1,8,2048,4095} with and without a backing file and for 58 flag words (all subsets of the basic bits plus huge-page sizes, populate, lock, stack, growsdown, nonblock, sync and unknown high bits: the pointer rule does not depend on the flags), guest bases within +-2 of the top of the address space, byte-by-byte coherence of shared file regions in both directions; a sparse file of 14 GiB with offsets around 2^31, 2^32 and 2^33 through three constructors (the kernel sees the whole offset, the region shows the file's bytes at that offset, and a request the kernel itself maps is not refused). Xen build: guest bases within two pages of 2^64 and around 2^63 for every valid mapping type (end beyond the address space refused whatever backs the region); all 256 low mmap-flag bytes plus every single high bit (alone and combined with GRANT) x {no file, device file at offset 0, at offset 4096} x sizes (incl. past the end of the file for plain file mappings) x hugetlbfs hint {unset, false, true} x injected {none, ioctl failure, mmap failure} on the emulated gntdev/privcmd; every mapping type x 7 explicit flag words x 3 protections: the region reports exactly the requested words. Both builds: every sequence of three file lengths out of {0,4096,8192,12288} with every size requested after each change through one FileOffset lineage (the predicate refers to the file as it is now), and every length query of a valid construction answered with EIO / length 0 / length 2^40 (one deviation per run): whatever the outcome, nothing may stay mapped. Oracle: the statement's acceptance predicate (must fail: MAP_FIXED - which must not even reach the kernel -, overflowing or past-EOF file range, misaligned raw pointer, end beyond the address space, unknown/contradictory Xen type bits, missing file or non-zero offset for foreign/grant; safe requests the OS refuses may fail too); on success the attributes echo the request and exactly one mapping with the requested arguments was made; on failure the interposed mapping log (and the device) show nothing left mapped. One case = one request; all non-trivial; distinct by construction.");
     ctx.assume("mmap/munmap/ioctl/lseek are observed and faulted through link-time interposition; gntdev/privcmd are emulated");
     if ctx.replay_of.is_some() {
         println!("replay: deterministic enumeration; re-running it");
